@@ -22,6 +22,9 @@ mod rules;
 #[derive(Deserialize, Debug, Default)]
 pub struct Unit {
     pub name: String,
+    /// units whose items come first, each extracted under its own configuration
+    #[serde(default)]
+    pub inherit: Vec<String>,
     #[serde(default)]
     pub source: Vec<Source>,
     /// `Type::method` whose `&self` receiver becomes `&mut self` (R1)
@@ -100,29 +103,31 @@ fn main() {
         std::process::exit(3);
     }
     let repo = &args[1];
-    let unit_text = std::fs::read_to_string(&args[2]).unwrap_or_else(|e| fail(&format!("cannot read unit file: {e}")));
-    let unit: Unit = toml::from_str(&unit_text).unwrap_or_else(|e| fail(&format!("bad unit file: {e}")));
+    let mut units: Vec<Unit> = vec![];
+    load_units(&args[2], &mut units, &mut vec![]);
     let mut log = Log { entries: vec![] };
     let mut out = String::new();
     let mut lifted: Vec<Item> = vec![];
-    for src in &unit.source {
-        let path = format!("{}/{}", repo, src.file);
-        let text = std::fs::read_to_string(&path).unwrap_or_else(|e| fail(&format!("lost anchor: cannot read {path}: {e}")));
-        let file = syn::parse_file(&text).unwrap_or_else(|e| fail(&format!("cannot parse {path}: {e}")));
-        for sel in &src.select {
-            let items = select(&file, sel).unwrap_or_else(|e| fail(&format!("lost anchor: {sel} in {}: {e}", src.file)));
-            for mut item in items {
-                if !src.rename.is_empty() {
-                    rules::rename_idents(&mut item, &src.rename, &mut log);
-                }
-                rules::rewrite_item(&mut item, &unit, &mut log, &mut lifted);
-                out.push_str(&format!("// @item {} :: {}\n", src.file, sel));
-                out.push_str(&item.to_token_stream().to_string());
-                out.push_str("\n\n");
-                for l in lifted.drain(..) {
-                    out.push_str(&format!("// @item {} :: {} (lifted)\n", src.file, sel));
-                    out.push_str(&l.to_token_stream().to_string());
+    for unit in &units {
+        for src in &unit.source {
+            let path = format!("{}/{}", repo, src.file);
+            let text = std::fs::read_to_string(&path).unwrap_or_else(|e| fail(&format!("lost anchor: cannot read {path}: {e}")));
+            let file = syn::parse_file(&text).unwrap_or_else(|e| fail(&format!("cannot parse {path}: {e}")));
+            for sel in &src.select {
+                let items = select(&file, sel).unwrap_or_else(|e| fail(&format!("lost anchor: {sel} in {}: {e}", src.file)));
+                for mut item in items {
+                    if !src.rename.is_empty() {
+                        rules::rename_idents(&mut item, &src.rename, &mut log);
+                    }
+                    rules::rewrite_item(&mut item, unit, &mut log, &mut lifted);
+                    out.push_str(&format!("// @item {} :: {}\n", src.file, sel));
+                    out.push_str(&item.to_token_stream().to_string());
                     out.push_str("\n\n");
+                    for l in lifted.drain(..) {
+                        out.push_str(&format!("// @item {} :: {} (lifted)\n", src.file, sel));
+                        out.push_str(&l.to_token_stream().to_string());
+                        out.push_str("\n\n");
+                    }
                 }
             }
         }
@@ -136,6 +141,21 @@ fn main() {
             .collect();
         std::fs::write(&args[pos + 1], serde_json::to_string_pretty(&v).unwrap()).unwrap();
     }
+}
+
+fn load_units(path: &str, units: &mut Vec<Unit>, seen: &mut Vec<String>) {
+    let text = std::fs::read_to_string(path).unwrap_or_else(|e| fail(&format!("cannot read unit file {path}: {e}")));
+    let unit: Unit = toml::from_str(&text).unwrap_or_else(|e| fail(&format!("bad unit file {path}: {e}")));
+    let dir = std::path::Path::new(path).parent().unwrap().parent().unwrap().to_path_buf();
+    for parent in unit.inherit.clone() {
+        if seen.contains(&parent) {
+            continue;
+        }
+        seen.push(parent.clone());
+        let pp = dir.join(&parent).join("unit.toml");
+        load_units(pp.to_str().unwrap(), units, seen);
+    }
+    units.push(unit);
 }
 
 pub fn fail(msg: &str) -> ! {
